@@ -24,6 +24,7 @@ func init() {
 var c15Edges = map[string]bool{"PartitionPending→PartitionActive": true, "PartitionPending→PartitionInactive": true, "PartitionActive→PartitionInactive": true, "PartitionInactive→PartitionActive": true}
 
 func runC15(c *core.Ctx) {
+	c.Rule("R10", "successor search: the index after an exact match, the insertion point otherwise, 0 past the last token (shared with C01.R8)", 1)
 	c.Rule("R1", "transition table literal = property's edges; membership test is pure", 2)
 	c.Rule("R2", "all partition state writes go through the table and the lock", 7)
 	c.Rule("R3", "partition deletion guard evaluated inside the CAS callback", 2)
@@ -490,6 +491,7 @@ func c15Owners(c *core.Ctx, pkg *packages.Package) {
 func c15Lookup(c *core.Ctx, pkg *packages.Package) {
 	c15LookupAs(c, pkg, "R6", true)
 	c15InactiveSince(c, pkg)
+	c01SearchTokenAs(c, pkg, "R10")
 	c14PartitionTokensSorted(c, pkg, "R9")
 }
 
